@@ -79,6 +79,8 @@ impl<'a> TypingContext<'a> {
     current_class: PStr,
     available_type_parameters: Vec<TypeParameterSignature>,
   ) -> TypingContext<'a> {
+    #[cfg(samlang_verif)]
+    crate::verif_hooks_c07::record_scope(&current_class, &available_type_parameters);
     TypingContext {
       global_signature,
       local_typing_context,
